@@ -9,6 +9,7 @@ range preserving, affine exact, periodic, outside raises or fills, linear approa
 amount conserved, compiled = interpreted)."""
 import itertools
 import math
+import time
 from fractions import Fraction
 
 import numpy as np
@@ -23,7 +24,9 @@ REQUIRED_THEOREMS = [
     "inside_is_accepted", "boundary_strip_nearest", "ghost_mode_linear_to_bc_value",
     "insert_conserves", "insert_interpreted_eq_compiled",
 ]
-RULE = ("random grids of every class (UnitGrid/CartesianGrid with 1-3 axes and every periodicity pattern, "
+RULE = ("(a) lattice sweep: small dyadic Cartesian grids with 1 and 2 axes, every periodicity pattern, every point of "
+        "a regular lattice of cell coordinates from 2 cells below to 1 cell above the domain (all integer / half-integer "
+        "ties, every branch), compared exactly; (b) random grids of every class (UnitGrid/CartesianGrid with 1-3 axes and every periodicity pattern, "
         "PolarSymGrid, SphericalSymGrid, CylindricalSymGrid, with and without inner hole, 1..7 cells per axis, "
         "dyadic or generic bounds) carrying fields of rank 0-2 (random, dyadic, affine or constant data) and "
         "points drawn by class (cell centres, faces, cell corners, bulk, boundary strips, domain corners, "
@@ -553,9 +556,10 @@ def req_interp(axes, shape, comps, pts, ghost=False, cc=False, fill=None):
             "points": [[q(c) for c in p] for p in pts]}
 
 
-def req_insert(axes, vol, data, p, amount, kind, ghost=False):
+def req_insert(axes, vol, comps, p, amounts, kind, ghost=False):
+    """all components of one insertion in one request"""
     return {"kind": kind, "eps": q(EPS), "ghost": ghost, "axes": jaxes(axes), "vol": [q(v) for v in vol],
-            "data": [q(v) for v in data], "point": [q(c) for c in p], "amount": q(amount)}
+            "data": [[q(v) for v in c] for c in comps], "point": [q(c) for c in p], "amount": [q(a) for a in amounts]}
 
 
 # ==========================================================================================
@@ -659,6 +663,44 @@ def gen_case(rng, kind=None, jit=False):
                 if spec["bc_fills"] == [True]:
                     spec["to_grid_variants"].append("bc")
     return spec, axes, meta, sides
+
+
+def lattice_cases(rng, thorough):
+    """deterministic sweep: small dyadic Cartesian grids (1 and 2 axes, every periodicity pattern), points on a
+    regular lattice of cell coordinates reaching 1.5 cells beyond both ends - every tie (integer and half-integer
+    cell coordinate), every branch; all numbers exactly representable, so compared exactly"""
+    out = []
+    shapes1 = [[n] for n in ((1, 2, 3, 4, 5, 6) if thorough else (1, 2, 3))]
+    shapes2 = [[1, 1], [1, 2], [2, 1], [2, 2]] + ([[3, 2], [2, 3]] if thorough else [])
+    for shape in shapes1 + shapes2:
+        d = len(shape)
+        step = (0.125 if thorough else 0.25) if d == 1 else (0.25 if thorough else 0.5)
+        for periodic in itertools.product([False, True], repeat=d):
+            los, dxs = [-0.75, 0.5][:d], [0.5, 2.0][:d]
+            gs = {"cls": "CartesianGrid", "shape": shape, "periodic": list(periodic), "dyadic": True,
+                  "bounds": [[lo, lo + n * dx] for lo, dx, n in zip(los, dxs, shape)]}
+            axes = grid_axes(gs)
+            fs = gen_field(rng, gs, axes, rank=0, kind="dyadic")
+            per_axis = []
+            for n in shape:
+                k0, k1 = round(-2.0 / step), round((n + 1.0) / step)
+                per_axis.append([k * step for k in range(k0, k1 + 1)])
+            pts, meta = [], []
+            for xs in itertools.product(*per_axis):
+                p = [a[2] + (x + 0.5) * a[3] for x, a in zip(xs, axes)]
+                where = classify(axes, p)
+                if where == "boundary":
+                    continue
+                pts.append(p)
+                meta.append({"cls": "lattice", "xs": list(xs), "where": where,
+                             "kinds": [axis_kind(a[0], x) for a, x in zip(axes, xs)]})
+            bc, sides = gen_bc(rng, gs, axes, True)
+            spec = {"grid": gs, "field": fs, "points": pts, "fill": -1.0, "bc": bc, "probes": [],
+                    "cell_points": [m["xs"] for m in meta], "inserts": [(p, [1.5]) for p in pts],
+                    "ops": ["axis", "interp", "interp_fill", "single_cc", "interp_bc", "insert", "insert_comp",
+                            "insert_comp_ghost"]}
+            out.append((spec, axes, meta, sides))
+    return out
 
 
 def gen_grid2(rng, gs):
@@ -1035,14 +1077,14 @@ def evaluate(ctx, ev, spec, axes, meta, sides, res):
                                      key={"op": leg})
             elif not isinstance(real, str):
                 ctx.hist("observation", "interpreted insert accepts a point up to half a cell outside")
-            # correspondence, component by component
-            for c in range(len(amount)):
-                before = fs["comps"][c]
-                def cb(st, val, leg=leg, real=real, c=c, case=case, before=before, amount=amount):
-                    ctx.impl_traces += 1
-                    if st != "ok":
-                        ctx.disagree(leg, case, "model error " + str(val), None)
-                        return
+            # correspondence, all components in one request
+            def cb(st, vals, leg=leg, real=real, case=case, amount=amount):
+                ctx.impl_traces += 1
+                if st != "ok":
+                    ctx.disagree(leg, case, "model error " + str(vals), None)
+                    return
+                for c, val in enumerate(vals):
+                    before = fs["comps"][c]
                     if val is None or isinstance(real, str):
                         if not (val is None and real == "ERR:DomainError"):
                             ctx.disagree(leg, case, val if val is None else "data", real if isinstance(real, str) else "data",
@@ -1057,8 +1099,8 @@ def evaluate(ctx, ev, spec, axes, meta, sides, res):
                             ctx.disagree(leg, case, [float(fr(x)) for x in val["data"]], ra,
                                          f"insert: new data differs (component {c})")
                             return
-                ev.ask("c16.insert", req_insert(axes, vol, before, p, amount[c],
-                                                "interp" if leg == "insert" else "comp"), cb)
+            ev.ask("c16.insert", req_insert(axes, vol, fs["comps"], p, amount,
+                                            "interp" if leg == "insert" else "comp"), cb)
     # monitor: compiled inserter = interpreted insert on interior points
     for k, (p, amount) in enumerate(spec["inserts"]):
         a, b = ins_results.get(("insert", k)), ins_results.get(("insert_comp", k))
@@ -1098,13 +1140,13 @@ def evaluate_ghost_inserter(ctx, ev, spec, axes, res):
         ctx.count(count_key(spec, "insert_comp_ghost", point=p, amount=amount), nontrivial=where == "inside",
                   leg=f"insert_comp_ghost/{mode}")
         case = small_case(spec, "insert_comp_ghost", point=p, amount=amount)
-        # ---- correspondence (component by component, padded arrays)
-        for c in range(len(amount)):
-            def cb(st, val, real=real, c=c, case=case, amount=amount):
-                ctx.impl_traces += 1
-                if st != "ok":
-                    ctx.disagree("insert_comp_ghost", case, "model error " + str(val), None)
-                    return
+        # ---- correspondence (padded arrays, all components in one request)
+        def cb(st, vals, real=real, case=case, amount=amount):
+            ctx.impl_traces += 1
+            if st != "ok":
+                ctx.disagree("insert_comp_ghost", case, "model error " + str(vals), None)
+                return
+            for c, val in enumerate(vals):
                 if val is None or isinstance(real, str):
                     if not (val is None and real == "ERR:DomainError"):
                         ctx.disagree("insert_comp_ghost", case, val if val is None else "data",
@@ -1115,17 +1157,18 @@ def evaluate_ghost_inserter(ctx, ev, spec, axes, res):
                 if any(abs(float(fr(m)) - r) > TOL * sc for m, r in zip(val["data"], fa)):
                     ctx.disagree("insert_comp_ghost", case, [float(fr(x)) for x in val["data"]], fa,
                                  f"ghost inserter: new padded data differ (component {c})")
-            if isinstance(real, str):
-                full_before = None
-            else:
-                full_before = real["full_before"][c]
-            if full_before is None:
-                # the real call raised before we could record the padded array: rebuild it (zeros in the ghost layer)
-                shape = [a[0] for a in axes]
+                    return
+        if isinstance(real, str):
+            # the real call raised before the padded array was recorded: rebuild it (zeros in the ghost layer)
+            shape = [a[0] for a in axes]
+            fulls = []
+            for comp in fs["comps"]:
                 arr = np.zeros([n + 2 for n in shape])
-                arr[tuple(slice(1, -1) for _ in shape)] = np.array(fs["comps"][c]).reshape(shape)
-                full_before = [float(v) for v in arr.reshape(-1)]
-            ev.ask("c16.insert", req_insert(axes, vol, full_before, p, amount[c], "comp", ghost=True), cb)
+                arr[tuple(slice(1, -1) for _ in shape)] = np.array(comp).reshape(shape)
+                fulls.append([float(v) for v in arr.reshape(-1)])
+        else:
+            fulls = real["full_before"]
+        ev.ask("c16.insert", req_insert(axes, vol, fulls, p, amount, "comp", ghost=True), cb)
         # ---- monitor
         if not (interior and where == "inside"):
             continue
@@ -1193,9 +1236,12 @@ def run(ctx):
     from harness.common.lean import LeanBatch
 
     rng = ctx.rng
-    n_s = ctx.budget(600, 6000)
+    n_s = ctx.budget(450, 6000)
     n_j = ctx.budget(16, 160)
-    s_cases = [gen_case(rng, kind=GRID_KINDS[i % len(GRID_KINDS)]) for i in range(n_s)]
+    s_cases = lattice_cases(rng, ctx.tier == "thorough")
+    ctx.note(f"{len(s_cases)} lattice-sweep cases (small dyadic grids, all ties, exact comparison) + {n_s} random cases "
+             f"in source semantics, {n_j} random cases compiled")
+    s_cases += [gen_case(rng, kind=GRID_KINDS[i % len(GRID_KINDS)]) for i in range(n_s)]
     j_cases = [gen_case(rng, kind=GRID_KINDS[i % len(GRID_KINDS)], jit=True) for i in range(n_j)]
     # compiled mode runs in the background (compilation dominates), source mode + model meanwhile
     jbox = {}
@@ -1207,17 +1253,26 @@ def run(ctx):
             jbox["exc"] = e
 
     th = threading.Thread(target=jrun)
+    timing = []
+    tstart = time.time()
     th.start()
     try:
         chunk = 400
-        for i in range(0, n_s, chunk):
+        for i in range(0, len(s_cases), chunk):
             part = s_cases[i:i + chunk]
+            t0 = time.time()
             results = run_workers([c[0] for c in part], False, ctx.workdir)
+            t1 = time.time()
             ev = Eval(ctx, LeanBatch(ctx.workdir))
             eval_all(ctx, ev, part, results)
+            nreq = len(ev.batch.reqs)
+            t2 = time.time()
             ev.finish()
+            timing.append(f"chunk {i}: workers {t1 - t0:.1f}s, evaluate {t2 - t1:.1f}s, model {time.time() - t2:.1f}s ({nreq} requests)")
     finally:
         th.join()
+    timing.append(f"compiled workers done after {time.time() - tstart:.1f}s")
+    ctx.extra["timing"] = timing
     if "exc" in jbox:
         raise jbox["exc"]
     ev = Eval(ctx, LeanBatch(ctx.workdir))
